@@ -17,6 +17,8 @@ import z3
 from . import core
 
 VERIF = os.path.dirname(os.path.dirname(os.path.abspath(__file__)))
+# tools/seed_matrix.sh runs several seeded trees at once; each run then writes evidence/replays to its own directory
+OUT = os.environ.get("SYMX_OUT_DIR") or VERIF
 EXIT_OK, EXIT_VIOLATION, EXIT_INCONCLUSIVE = 0, 1, 3
 
 
@@ -424,7 +426,7 @@ def run_property(
             continue
         seen_keys.add(v["key"])
         h = hashlib.sha256(json.dumps(v, sort_keys=True).encode()).hexdigest()[:12]
-        d = os.path.join(VERIF, "replays", prop_id)
+        d = os.path.join(OUT, "replays", prop_id)
         os.makedirs(d, exist_ok=True)
         p = os.path.join(d, f"{h}.json")
         with open(p, "w") as f:
@@ -485,8 +487,8 @@ def run_property(
         "wall_s": round(wall, 2),
         "violations": len(new_viol),
     }
-    os.makedirs(os.path.join(VERIF, "evidence"), exist_ok=True)
-    with open(os.path.join(VERIF, "evidence", f"{prop_id}.json"), "w") as f:
+    os.makedirs(os.path.join(OUT, "evidence"), exist_ok=True)
+    with open(os.path.join(OUT, "evidence", f"{prop_id}.json"), "w") as f:
         json.dump(evidence, f, indent=1)
 
     print(
